@@ -91,6 +91,8 @@ class DetectVarNames( ast.NodeVisitor ):
         elif isinstance( v, ast.Call ): # int(x)
           for x in v.args:
             self.visit(x)
+        else: # any other expression, e.g. s.sel + 1 or s.sel[0:2]
+          self.visit( v )
 
         num.append(n)
 
@@ -106,11 +108,9 @@ class DetectVarNames( ast.NodeVisitor ):
         raise TypeError( f"Having slice in the middle such as s.x[1][1:2][1][2] "
                          f"doesn't make sense at line {input_node.lineno} of "
                          f"update block {self.upblk.__name__} in class {self.obj.__class__}." )
-      elif isinstance( node, ast.Call ): # a.b().c()
-        # FIXME?
-        return None, None
       else:
-        assert isinstance( node, ast.Str ) # filter out line_trace
+        # The base is not a name: a.b().c(), ( s.a + 1 )[0:4], "{}".format
+        # The caller looks into the sub-expressions.
         return None, None
 
       nodelist.append( node )
@@ -197,6 +197,8 @@ class DetectVarNames( ast.NodeVisitor ):
           raise TypeError( f"Having slice in the middle such as s.x[1][1:2][1][2] "
                            f"doesn't make sense at line {input_node.lineno} of "
                            f"update block {self.upblk.__name__} in class {self.obj.__class__}." )
+        else: # any other expression, e.g. s.sel + 1 or s.sel[0:2]
+          self.visit( v )
 
         num.append(n)
 
@@ -207,11 +209,9 @@ class DetectVarNames( ast.NodeVisitor ):
         obj_name.append( (node.attr, num[::-1]) )
       elif isinstance( node, ast.Name ):
         obj_name.append( (node.id, num[::-1]) )
-      elif isinstance( node, ast.Call ): # a.b().c()
-        # FIXME?
-        return None, None
       else:
-        assert isinstance( node, ast.Str ) # filter out line_trace
+        # The base is not a name: a.b().c(), ( s.a + 1 )[0:4], "{}".format
+        # The caller looks into the sub-expressions.
         return None, None
 
       nodelist.append( node )
@@ -254,7 +254,10 @@ class DetectReadsWritesCalls( DetectVarNames ):
 
   def visit_Attribute( self, node ): # s.a.b
     obj_name, nodelist = self._get_full_name( node )
-    if not obj_name:  return
+    if not obj_name:
+      # Field of a call result or of an expression: the signals are inside
+      self.generic_visit( node )
+      return
 
     pair = (obj_name, nodelist, self.current_op)
 
@@ -267,7 +270,10 @@ class DetectReadsWritesCalls( DetectVarNames ):
 
   def visit_Subscript( self, node ): # s.a.b[0:3] or s.a.b[0]
     obj_name, nodelist = self._get_full_name( node )
-    if not obj_name:  return
+    if not obj_name:
+      # Slice of a call result or of an expression: the signals are inside
+      self.generic_visit( node )
+      return
 
     pair = (obj_name, nodelist, self.current_op)
 
@@ -282,12 +288,17 @@ class DetectReadsWritesCalls( DetectVarNames ):
 
   def visit_Call( self, node ):
     obj_name, nodelist = self._get_full_name( node.func )
-    if not obj_name:  return
+    if not obj_name:
+      # Method of a call result, e.g. concat( s.a, s.b ).uint()
+      self.generic_visit( node )
+      return
 
     self.calls.append( (obj_name, nodelist, None) )
 
     for x in node.args:
       self.visit( x )
+    for x in node.keywords:
+      self.visit( x.value )
 
   def visit_For( self, node ):
     self.current_op = 'for'
